@@ -79,7 +79,10 @@ pub fn ts_from_prodos_block(block: usize,kind: &DiskKind) -> Result<Vec<[usize;2
                 x if x<disk35::ZONE_BOUNDS_1[3] => 2,
                 x if x<disk35::ZONE_BOUNDS_1[4] => 3,
                 x if x<disk35::ZONE_BOUNDS_1[5] => 4,
-                _ => panic!("illegal block request")
+                _ => {
+                    error!("block {} is beyond the end of the disk",block);
+                    return Err(Box::new(super::Error::SectorAccess));
+                }
             };
             let rel_block = block - disk35::ZONE_BOUNDS_1[zone];
             let secs_per_track = disk35::ZONED_SECS_PER_TRACK[zone];
@@ -95,7 +98,10 @@ pub fn ts_from_prodos_block(block: usize,kind: &DiskKind) -> Result<Vec<[usize;2
                 x if x<disk35::ZONE_BOUNDS_2[3] => 2,
                 x if x<disk35::ZONE_BOUNDS_2[4] => 3,
                 x if x<disk35::ZONE_BOUNDS_2[5] => 4,
-                _ => panic!("illegal block request")
+                _ => {
+                    error!("block {} is beyond the end of the disk",block);
+                    return Err(Box::new(super::Error::SectorAccess));
+                }
             };
             let rel_block = block - disk35::ZONE_BOUNDS_2[zone];
             let secs_per_track = disk35::ZONED_SECS_PER_TRACK[zone];
